@@ -5,8 +5,14 @@ go 1.23.1
 require github.com/simimpact/srsim v0.0.0
 
 require (
+	golang.org/x/tools v0.29.0
+	google.golang.org/protobuf v1.34.2
+)
+
+require (
 	github.com/aclements/go-moremath v0.0.0-20210112150236-f10218a38794 // indirect
-	google.golang.org/protobuf v1.34.2 // indirect
+	golang.org/x/mod v0.22.0 // indirect
+	golang.org/x/sync v0.10.0 // indirect
 )
 
 replace github.com/simimpact/srsim => /repo
